@@ -873,16 +873,23 @@ theorem Sizes_step {P : Params} {A : Assembler} {script : List Item} {s s' : Sta
     · injection hs with hs; subst hs; exact ⟨hl, ht, hc, hr, hi, hsn⟩
     · cases hs
 
-/-! ### Lifting to reachable states -/
+/-! ### Lifting to reachable states (any number of sessions) -/
+
+theorem PoolOK_restart (P' : Params) (s : State) : PoolOK P' (restartState P' s) := by
+  simp [PoolOK, restartState, init]
+
+theorem Sizes_restart (P' : Params) (s : State) : Sizes P' (restartState P' s) := by
+  constructor <;> simp [restartState, init]
 
 theorem reach_wf {P : Params} {A : Assembler} {script : List Item} {s : State}
-    (h : Reach P A script s) : PoolOK P s ∧ Sizes P s := by
+    (h : Reach A P script s) : PoolOK P s ∧ Sizes P s := by
   induction h with
-  | init => exact ⟨PoolOK_init P, Sizes_init P⟩
+  | init => exact ⟨PoolOK_init _, Sizes_init _⟩
+  | restart _ _ _ => exact ⟨PoolOK_restart _ _, Sizes_restart _ _⟩
   | step _ hs ih => exact ⟨PoolOK_step ih.1 hs, Sizes_step ih.1 ih.2 hs⟩
 
 theorem reach_of_run {P : Params} {A : Assembler} {script : List Item} {s0 s : State} {as : List Step}
-    (h0 : Reach P A script s0) (h : run P A script s0 as = some s) : Reach P A script s := by
+    (h0 : Reach A P script s0) (h : run P A script s0 as = some s) : Reach A P script s := by
   induction as generalizing s0 with
   | nil => simp only [run] at h; injection h with h; subst h; exact h0
   | cons a as ih =>
@@ -890,27 +897,6 @@ theorem reach_of_run {P : Params} {A : Assembler} {script : List Item} {s0 s : S
     split at h
     · next s1 hs1 => exact ih (Reach.step h0 hs1) h
     · cases h
-
-/-- Conversely every reachable state is the end of a schedule. -/
-theorem run_of_reach {P : Params} {A : Assembler} {script : List Item} {s : State}
-    (h : Reach P A script s) : ∃ as, run P A script (init P) as = some s := by
-  induction h with
-  | init => exact ⟨[], rfl⟩
-  | @step s1 s2 a _ hs ih =>
-    obtain ⟨as, has⟩ := ih
-    refine ⟨as ++ [a], ?_⟩
-    have : ∀ (s0 : State) (as : List Step), run P A script s0 as = some s1 →
-        run P A script s0 (as ++ [a]) = some s2 := by
-      intro s0 as
-      induction as generalizing s0 with
-      | nil => intro h; simp only [run] at h; injection h with h; subst h; simp [run, hs]
-      | cons b bs ihb =>
-        intro h
-        simp only [run, List.cons_append] at h ⊢
-        split at h
-        · next s3 h3 => exact ihb _ h
-        · cases h
-    exact this _ _ has
 
 /-! ### Buffer ownership -/
 
